@@ -21,7 +21,14 @@ func init() { verifChecks["C11"] = checkC11 }
 
 type c11Case struct {
 	Hist []string `json:"history"`
+	// FailAt >= 0: the call number FailAt of the LAST event of the history fails (b = 1)
+	FailAt *int `json:"failing_call_of_last_event,omitempty"`
+	// Flavour 1: a ZooKeeper call fails with an error the client does not retry (no server reachable);
+	// 0: the connection drops and comes back at once (retried by the client)
+	Flavour int `json:"failure_flavour,omitempty"`
 }
+
+var c11LastEventPoints []sim.Point
 
 var c11Alphabet = []string{"mgrTick", "h1Recovery", "fileTo2", "fileTo1", "h1Dies", "h1Starts", "h1Unreplicated", "writeMaster", "h1SQLError", "h1IOError", "h1Writable", "adv5", "adv61"}
 
@@ -81,6 +88,13 @@ func c11Run(r *vt.Run, c c11Case) (canon string) {
 		})
 		for step, ev := range c.Hist {
 			np := len(w.Panics)
+			if step == len(c.Hist)-1 {
+				lastBase := len(w.Trace)
+				defer func() { c11LastEventPoints = append([]sim.Point(nil), w.Trace[lastBase:]...) }()
+				if c.FailAt != nil {
+					w.Plan[lastBase+*c.FailAt] = sim.Deviation{Kind: sim.DevErr, Arg: c.Flavour}
+				}
+			}
 			switch ev {
 			case "mgrTick":
 				h.InjectHealth()
@@ -239,7 +253,7 @@ func checkC11(r *vt.Run) {
 		return true
 	}
 	runner := func(hist []string) string {
-		c := c11Case{hist}
+		c := c11Case{Hist: hist}
 		r.Crumb(c)
 		if len(hist) == 4 && hist[0] == "h1Unreplicated" && hist[1] == "h1Dies" {
 			r.Sample(c)
@@ -273,5 +287,35 @@ func checkC11(r *vt.Run) {
 		return runner(append(append([]string(nil), prefix3...), hist...))
 	})
 	r.Bound("third_initial_state", "h1 switched away from, clean replica of h2, then down and dropped from the list (prefix "+strings.Join(prefix3, ",")+")")
+	// b = 1: one failing call at every call boundary of the last event of a few histories in which a
+	// marked host looks healthy to the manager
+	fidx := 0
+	for _, hist := range [][]string{
+		append(append([]string(nil), prefix...), "mgrTick"),
+		append(append([]string(nil), prefix...), "adv5", "mgrTick"),
+		append(append([]string(nil), prefix...), "h1Recovery"),
+		{"h1Dies", "mgrTick", "mgrTick"},
+	} {
+		c11LastEventPoints = nil
+		c11Run(r, c11Case{Hist: hist})
+		r.R.Evaluations--
+		pts := c11LastEventPoints
+		r.Bound(fmt.Sprintf("one_failing_call_at_each_of_the_%d_calls_of_the_last_event_of", len(pts)), strings.Join(hist, ","))
+		for at, p := range pts {
+			for fl := 0; fl < 2; fl++ {
+				if fl == 1 && p.Kind != "zk" {
+					continue
+				}
+				fidx++
+				if !r.Mine(fidx) {
+					continue
+				}
+				at := at
+				cc := c11Case{Hist: hist, FailAt: &at, Flavour: fl}
+				r.Crumb(cc)
+				c11Run(r, cc)
+			}
+		}
+	}
 	r.Bound("second_initial_state", "h1 failed over, returned, marked replica of h2 (prefix "+strings.Join(prefix, ",")+")")
 }
